@@ -112,6 +112,10 @@ func subsetNames(keys []gen.KeyPair, mask int) []string {
 func runC01(c *core.Ctx) {
 	pool := Pool(c)
 	keys := gen.Mixed(pool, 4) // ed25519, ecdsa-p256, rsa2048, ecdsa-p384
+	if !c.Quick() && c.Seed%2 == 0 {
+		// even seeds: the other key types
+		keys = []gen.KeyPair{gen.ByKind(pool, "rsa3072")[0], gen.ByKind(pool, "ecdsa-p521")[0], gen.ByKind(pool, "ecdsa-p224")[0], gen.ByKind(pool, "ed25519")[3]}
+	}
 	foreign := gen.ByKind(pool, "ed25519")[2]
 	caseNo := 0
 	next := func() bool { // sharding over the global case counter
@@ -188,7 +192,7 @@ func runC01(c *core.Ctx) {
 			}
 
 			// ---- B: single-point alterations of the signed content ---------
-			nLayouts := c.Pick(1, 4)
+			nLayouts := c.Pick(1, 12)
 			for li := 0; li < nLayouts; li++ {
 				e.alterations(li, &caseNo, foreign)
 			}
@@ -249,6 +253,12 @@ func (e *c01Env) alterations(variant int, caseNo *int, foreign gen.KeyPair) {
 	e.chain.Layout = l
 	e.richLayout(variant)
 	signer := e.keys[variant%len(e.keys)]
+	if variant >= 4 {
+		// thorough: further layouts signed with every other key kind of the pool
+		pool := Pool(c)
+		signer = pool[(variant*5+3)%len(pool)]
+	}
+	variant = variant % 4
 	path, _, err := e.chain.WriteLayout("alter.layout", signer)
 	if err != nil {
 		c.Inconclusive("harness: sign: " + err.Error())
